@@ -454,12 +454,56 @@ def r11_5(prog, tab):
     return r
 
 
+def r11_6(prog):
+    """Every pass of the fixer is applied to every top-level member.  In asn1f_process and the two module phases, a call
+    that applies a fixing or checking pass (asn1f_recurse_expr(arg, <pass>), a direct asn1f_* pass, a module phase) from
+    inside a loop over the modules or over a module's members lies on every iteration of that loop: no path leads from
+    the loop header back to it that avoids the call.  A `continue` in front of a check (`this kind of type cannot be
+    wrong`) exempts the whole subtree the pass would have walked."""
+    r = Rule("R11.6", "inside the module and member loops of the fixer, every pass is applied on every iteration", floor=8)
+    for fn in ("asn1f_process", "asn1f_fix_module__phase_1", "asn1f_fix_module__phase_2"):
+        f = prog.require(fn)
+        loops = f.loops()
+        n = 0
+        for b, i, e in sorted(f.calls(), key=lambda z: (z[2].get("line") or 0)):
+            cal = e.get("callee")
+            if cal == "asn1f_recurse_expr" and len(e.get("args", [])) > 1:
+                cb = tree_text(e["args"][1]["tree"])
+            elif cal and cal.startswith("asn1f_") or cal == "phase_1_1":
+                cb = cal
+            else:
+                continue
+            inner = [(h, body) for h, body in loops if b.id in body]
+            if not inner:
+                continue
+            h, body = min(inner, key=lambda x: len(x[1]))
+            n += 1
+            key = "%s#%d" % (cb, n)
+            avoid = False
+            if b.id != h:
+                seen, st = set(), [s_ for s_ in f.blocks[h].succs() if s_ in body and s_ != b.id]
+                while st:
+                    x = st.pop()
+                    if x == h:
+                        avoid = True
+                        break
+                    if x in seen or x == b.id or x not in body:
+                        continue
+                    seen.add(x)
+                    st.extend(f.blocks[x].succs())
+            if avoid:
+                r.bad(f, key, "an iteration of the enclosing loop can go round without calling %s: the members it skips are never given this pass" % cb, e["line"])
+            else:
+                r.ok(f, key, "called on every iteration of the enclosing loop", e["line"])
+    return r
+
+
 def run(ctx):
     prog = ctx.prog("K")
     tab = load_tables("c11")
     r1, siteok, sf = r11_1(prog, tab)
     r2 = r11_2(prog, tab, siteok, sf)
-    return [r1, r2, r11_3(prog, tab), r11_4(prog, tab), r11_5(prog, tab)]
+    return [r1, r2, r11_3(prog, tab), r11_4(prog, tab), r11_5(prog, tab), r11_6(prog)]
 
 
 def thorough(ctx):
